@@ -143,3 +143,207 @@ Qed.
 
 Corollary validate_marshalled_s_proj be off buf t : fst (validate_marshalled_s be off buf t) = validate_marshalled be off buf t.
 Proof. apply validate_s_proj. Qed.
+
+(** ** the bound *)
+(** A good counted result of validation at [off] in [buf] when a byte weighs [w] steps: a successful run made at
+    most [w] steps per byte it consumed, a failing run at most [w] steps per byte between [off] and the end of
+    the buffer and [w] more (written without subtraction). *)
+Definition sgood (w off : N) (buf : list N) (x : counted N) : Prop :=
+  match fst x with
+  | Ok k => 1 <= k /\ off + k <= len buf /\ snd x <= w * k
+  | Err => snd x + w * off <= w * len buf + w
+  | _ => False
+  end.
+(** the same for one round of a loop (or one call) at position [p] of a region ending at [L], the step for the round
+    (the call) included *)
+Definition rgood (v p L : N) (x : counted N) : Prop :=
+  match fst x with
+  | Ok k => 1 <= k /\ p + k <= L /\ 1 + snd x <= v * k
+  | Err => 1 + snd x + v * p <= v * L + v
+  | _ => False
+  end.
+
+Lemma sgood_tick w off buf x : rgood w off (len buf) x -> sgood w off buf (tick x).
+Proof. unfold sgood, rgood. rewrite fst_tick, snd_tick. destruct (fst x); auto. Qed.
+Lemma sgood_rgood w p buf x : p <= len buf -> sgood w p buf x -> rgood (w + 1) p (len buf) x.
+Proof. unfold sgood, rgood. intros Hp. destruct (fst x); auto; intros H; intuition lia. Qed.
+Lemma rgood_err0 w off L : 1 <= w -> off <= L -> rgood w off L (Err, 0).
+Proof. intros Hw Ho. unfold rgood. cbn [fst snd]. pose proof (N.mul_le_mono_l off L w Ho). lia. Qed.
+Lemma rgood_leaf w off buf o : 1 <= w -> off <= len buf -> vgood off buf o -> rgood w off (len buf) (lift o).
+Proof.
+  intros Hw Ho. unfold rgood, lift. cbn [fst snd]. destruct o as [k| | | |]; cbn [vgood]; auto.
+  - intros [H1 H2]. repeat split; try assumption. nia.
+  - intros _. pose proof (N.mul_le_mono_l off (len buf) w Ho). lia.
+Qed.
+
+Lemma bind_s_lift_ok {A B} (a : A) (f : A -> counted B) : bind_s (lift (Ok a)) f = f a.
+Proof. unfold bind_s, lift. cbn [fst snd]. destruct (f a) as [r s]. reflexivity. Qed.
+
+Lemma step_weight_pos d : 1 <= step_weight d.
+Proof. unfold step_weight. lia. Qed.
+Lemma step_weight_succ d : d < MAX_DEPTH -> step_weight d = step_weight (d + 1) + 2.
+Proof. unfold step_weight, MAX_DEPTH. lia. Qed.
+
+Lemma elem_loop_s_good one v L offset n :
+  (forall p, p <= L -> rgood v p L (one p)) ->
+  forall lf used, offset + used <= L -> (N.to_nat (n - used) < lf)%nat ->
+    let x := elem_loop_s one lf offset n used in
+    match fst x with
+    | Ok u => n <= u /\ used <= u /\ offset + u <= L /\ snd x + v * used <= v * u
+    | Err => snd x + v * (offset + used) <= v * L + v
+    | _ => False
+    end.
+Proof.
+  intros Hone. induction lf as [|lf IH]; intros used Hu Hf; cbn [elem_loop_s]; destruct (N.ltb_spec used n) as [Hlt|Hge];
+    try (cbn [fst snd]; lia).
+  specialize (Hone _ Hu). unfold rgood in Hone. cbv zeta. rewrite fst_tick, snd_tick. unfold bind_s.
+  destruct (one (offset + used)) as [r s]. cbn [fst snd] in *. destruct r as [k| | | |]; cbn [fst snd]; try exact Hone.
+  destruct Hone as (Hk1 & Hk2 & Hs).
+  specialize (IH (used + k) ltac:(lia) ltac:(lia)). cbv zeta in IH.
+  destruct (elem_loop_s one lf offset n (used + k)) as [r2 s2]. cbn [fst snd] in *.
+  destruct r2 as [u| | | |]; try exact IH; intuition lia.
+Qed.
+
+Lemma v_fields_s_good one v L offset : forall ts,
+  (forall f p, In f ts -> p <= L -> rgood v p L (one f p)) ->
+  forall used, offset + used <= L ->
+    let x := v_fields_s one offset ts used in
+    match fst x with
+    | Ok u => used + len ts <= u /\ offset + u <= L /\ snd x + v * used <= v * u
+    | Err => snd x + v * (offset + used) <= v * L + v
+    | _ => False
+    end.
+Proof.
+  induction ts as [|f r IH]; intros Hone used Hu; cbn [v_fields_s]; cbv zeta.
+  - cbn [lift fst snd]. change (len (@nil ty)) with 0. lia.
+  - pose proof (Hone f _ (or_introl eq_refl) Hu) as H1. unfold rgood in H1. rewrite fst_tick, snd_tick. unfold bind_s.
+    destruct (one f (offset + used)) as [r1 s1]. cbn [fst snd] in *. destruct r1 as [k| | | |]; cbn [fst snd]; try exact H1.
+    destruct H1 as (Hk1 & Hk2 & Hs).
+    specialize (IH (fun f' p Hin => Hone f' p (or_intror Hin)) (used + k) ltac:(lia)). cbv zeta in IH.
+    destruct (v_fields_s one offset r (used + k)) as [r2 s2]. cbn [fst snd] in *. rewrite len_cons.
+    destruct r2 as [u| | | |]; try exact IH; intuition lia.
+Qed.
+
+Ltac sstep t x E :=
+  let T := fresh "T" in
+  pose proof t as T;
+  match type of T with
+  | ok_or_err ?o => destruct o as [x| | | |] eqn:E; try (exfalso; exact T); clear T;
+                    [rewrite bind_s_lift_ok|apply rgood_err0; [assumption|lia]]
+  end.
+
+Theorem validate_s_good be : forall vf t d off buf,
+  wf t = true -> off <= len buf -> (1 <= vf)%nat -> 65 <= N.of_nat vf + d ->
+  sgood (step_weight d) off buf (validate_s vf be d off buf t).
+Proof.
+  induction vf as [|vf IHvf]; [intros; lia|].
+  induction t as [b|e IHe|ts IHts|kt vt IHv|] using ty_ind'; intros d off buf Hwf Hoff Hvf1 Hvf;
+    pose proof (step_weight_pos d) as Hw.
+  - rewrite validate_s_base_eq. apply sgood_tick, rgood_leaf; try assumption. now apply validate_base_good.
+  - rewrite validate_s_array_eq. apply sgood_tick. cbn [wf] in Hwf.
+    destruct (N.leb_spec MAX_DEPTH d) as [|Hd]; [apply rgood_err0; assumption|].
+    rewrite (step_weight_succ d Hd) in *. pose proof (step_weight_pos (d + 1)) as Hw'. set (w' := step_weight (d + 1)) in *.
+    sstep (align_offset_total 4 buf off Hoff) p1 E1. apply align_offset_bound in E1.
+    sstep (parse_u32_at_total be buf (off + p1) E1) n0 E2. apply parse_u32_at_bound in E2.
+    sstep (check_array_len_total n0) n E3.
+    destruct (N.ltb_spec (len buf - (off + p1 + 4)) n) as [|Hn1]; [apply rgood_err0; [assumption|lia]|].
+    sstep (align_offset_total (align e) buf (off + p1 + 4) ltac:(lia)) p2 E4. apply align_offset_bound in E4.
+    destruct (N.ltb_spec (len buf - (off + p1 + 4 + p2)) n) as [|Hn2]; [apply rgood_err0; [assumption|lia]|].
+    destruct (bytes_always_valid e).
+    + destruct (_ =? 0); [|apply rgood_err0; [assumption|lia]]. unfold rgood, lift. cbn [fst snd]. nia.
+    + set (cl := firstnN (off + p1 + 4 + p2 + n) buf).
+      assert (Lcl : len cl = off + p1 + 4 + p2 + n) by (apply len_firstnN_le; lia).
+      assert (Hone : forall p, p <= len cl -> rgood (w' + 1) p (len cl) (validate_s (S vf) be (d + 1) p cl e)).
+      { intros p Hp. apply sgood_rgood; [assumption|]. apply IHe; try assumption. lia. }
+      pose proof (elem_loop_s_good _ (w' + 1) (len cl) (off + p1 + 4 + p2) n Hone (S (N.to_nat n)) 0 ltac:(lia) ltac:(lia)) as G.
+      cbv zeta in G. unfold bind_s.
+      destruct (elem_loop_s _ _ _ _ _) as [r s]. cbn [fst snd] in G |- *. unfold rgood.
+      destruct r as [u| | | |]; cbn [fst snd lift]; try exact G.
+      * assert (u = n) by lia. subst u. nia.
+      * pose proof (N.mul_le_mono_l (off + n) (len buf) (w' + 2) ltac:(lia)). nia.
+  - rewrite validate_s_struct_eq. apply sgood_tick. cbn [wf] in Hwf. apply andb_prop in Hwf. destruct Hwf as [Hne Hwf].
+    destruct (N.leb_spec MAX_DEPTH d) as [|Hd]; [apply rgood_err0; assumption|].
+    rewrite (step_weight_succ d Hd) in *. pose proof (step_weight_pos (d + 1)) as Hw'. set (w' := step_weight (d + 1)) in *.
+    sstep (align_offset_total 8 buf off Hoff) p E1. apply align_offset_bound in E1.
+    rewrite forallb_forall in Hwf. rewrite Forall_forall in IHts.
+    assert (Hone : forall f q, In f ts -> q <= len buf -> rgood (w' + 1) q (len buf) (validate_s (S vf) be (d + 1) q buf f)).
+    { intros f q Hin Hq. apply sgood_rgood; [assumption|]. apply IHts; auto. lia. }
+    pose proof (v_fields_s_good _ (w' + 1) (len buf) (off + p) ts Hone 0 ltac:(lia)) as G. cbv zeta in G. unfold bind_s.
+    destruct (v_fields_s _ _ ts 0) as [r s]. cbn [fst snd] in G |- *. unfold rgood.
+    destruct r as [u| | | |]; cbn [fst snd lift]; try exact G.
+    + destruct ts as [|t0 ts]; [discriminate|]. rewrite len_cons in G. nia.
+    + pose proof (N.mul_le_mono_l off (len buf) (w' + 2) ltac:(lia)). nia.
+  - rewrite validate_s_dict_eq. apply sgood_tick. cbn [wf] in Hwf.
+    destruct (N.leb_spec MAX_DEPTH d) as [|Hd]; [apply rgood_err0; assumption|].
+    rewrite (step_weight_succ d Hd) in *. pose proof (step_weight_pos (d + 1)) as Hw'. set (w' := step_weight (d + 1)) in *.
+    sstep (align_offset_total 4 buf off Hoff) p1 E1. apply align_offset_bound in E1.
+    sstep (parse_u32_at_total be buf (off + p1) E1) n0 E2. apply parse_u32_at_bound in E2.
+    sstep (check_array_len_total n0) n E3.
+    destruct (N.ltb_spec (len buf - (off + p1 + 4)) n) as [|Hn1]; [apply rgood_err0; [assumption|lia]|].
+    sstep (align_offset_total 8 buf (off + p1 + 4) ltac:(lia)) p2 E4. apply align_offset_bound in E4.
+    destruct (N.ltb_spec (len buf - (off + p1 + 4 + p2)) n) as [|Hn2]; [apply rgood_err0; [assumption|lia]|]. cbv zeta.
+    set (cl := firstnN (off + p1 + 4 + p2 + n) buf).
+    assert (Lcl : len cl = off + p1 + 4 + p2 + n) by (apply len_firstnN_le; lia).
+    set (one := fun p => dos ep <- lift (align_offset 8 cl p); dos kb <- tick (lift (validate_base be (p + ep) cl kt));
+                         dos vb <- validate_s (S vf) be (d + 1) (p + ep + kb) cl vt; lift (Ok (ep + kb + vb))).
+    assert (Hone : forall p, p <= len cl -> rgood (w' + 1) p (len cl) (one p)).
+    { intros p Hp. unfold one.
+      assert (Hv : 1 <= w' + 1) by lia.
+      sstep (align_offset_total 8 cl p Hp) ep Ea. apply align_offset_bound in Ea.
+      pose proof (validate_base_good be (p + ep) cl kt Ea) as Tk. unfold bind_s at 1. rewrite fst_tick, snd_tick, fst_lift, snd_lift.
+      destruct (validate_base be (p + ep) cl kt) as [kb| | | |]; cbn [vgood] in Tk; try (exfalso; exact Tk).
+      2:{ unfold rgood. cbn [fst snd]. pose proof (N.mul_le_mono_l p (len cl) w' Hp). nia. }
+      destruct Tk as [Hk1 Hk2].
+      pose proof (IHv (d + 1) (p + ep + kb) cl Hwf ltac:(lia) Hvf1 ltac:(lia)) as Tv. fold w' in Tv. unfold sgood in Tv.
+      unfold bind_s. destruct (validate_s (S vf) be (d + 1) (p + ep + kb) cl vt) as [r s]. cbn [fst snd] in Tv |- *. unfold rgood.
+      destruct r as [vb| | | |]; cbn [fst snd lift]; try exact Tv.
+      - nia.
+      - pose proof (N.mul_le_mono_l (p + 1) (p + ep + kb) w' ltac:(lia)). nia. }
+    pose proof (elem_loop_s_good one (w' + 1) (len cl) (off + p1 + 4 + p2) n Hone (S (N.to_nat n)) 0 ltac:(lia) ltac:(lia)) as G.
+    cbv zeta in G. unfold bind_s.
+    destruct (elem_loop_s _ _ _ _ _) as [r s]. cbn [fst snd] in G |- *. unfold rgood.
+    destruct r as [u| | | |]; cbn [fst snd lift]; try exact G.
+    + assert (u = n) by lia. subst u. nia.
+    + pose proof (N.mul_le_mono_l (off + n) (len buf) (w' + 2) ltac:(lia)). nia.
+  - rewrite validate_s_variant_eq. apply sgood_tick.
+    destruct (N.leb_spec MAX_DEPTH d) as [|Hd]; [apply rgood_err0; assumption|].
+    rewrite (step_weight_succ d Hd) in *. pose proof (step_weight_pos (d + 1)) as Hw'. set (w' := step_weight (d + 1)) in *.
+    sstep (unmarshal_signature_total buf off Hoff) r Es. destruct r as [k s]. cbn [fst snd].
+    apply unmarshal_signature_bound in Es.
+    sstep (parse_description_total s) tys Ep.
+    destruct tys as [|t' [|]]; try (apply rgood_err0; [assumption|lia]).
+    destruct (parse_single _ _ Ep) as [_ Htok]. unfold MAX_DEPTH in Hd.
+    pose proof (IHvf t' (d + 1) (off + k) buf (type_ok_wf _ Htok) ltac:(lia) ltac:(lia) ltac:(lia)) as Tv. fold w' in Tv.
+    unfold sgood in Tv. unfold bind_s.
+    destruct (validate_s vf be (d + 1) (off + k) buf t') as [r2 s2]. cbn [fst snd] in Tv |- *. unfold rgood.
+    destruct r2 as [pb| | | |]; cbn [fst snd lift]; try exact Tv.
+    + nia.
+    + pose proof (N.mul_le_mono_l off (len buf) 2 Hoff). nia.
+Qed.
+
+(** the bound in closed form, for every outcome: [step_weight d] steps per byte between the start offset and the end
+    of the buffer, plus [step_weight d]; a successful run: [step_weight d] steps per byte consumed *)
+Corollary validate_s_bound be vf t d off buf :
+  wf t = true -> off <= len buf -> (1 <= vf)%nat -> 65 <= N.of_nat vf + d ->
+  let x := validate_s vf be d off buf t in
+  snd x <= step_weight d * (len buf - off) + step_weight d
+  /\ (forall n, fst x = Ok n -> snd x <= step_weight d * n /\ n <= len buf - off).
+Proof.
+  intros Hw Ho H1 H2 x. pose proof (validate_s_good be vf t d off buf Hw Ho H1 H2) as G. fold x in G. unfold sgood in G.
+  assert (E : step_weight d * len buf = step_weight d * (len buf - off) + step_weight d * off) by nia.
+  split.
+  - destruct (fst x) as [k| | | |]; try (exfalso; exact G).
+    + destruct G as (Hk1 & Hk2 & Hs). pose proof (N.mul_le_mono_l k (len buf - off) (step_weight d) ltac:(lia)). lia.
+    + lia.
+  - intros n En. rewrite En in G. intuition lia.
+Qed.
+
+(** the entry point validate_marshalled: depth 0, the fuel [validate_marshalled] uses; [step_weight 0 = 129] *)
+Theorem validate_marshalled_s_bound be off buf t : wf t = true -> off <= len buf ->
+  snd (validate_marshalled_s be off buf t) <= 129 * (len buf - off) + 129
+  /\ (forall n, fst (validate_marshalled_s be off buf t) = Ok n ->
+        snd (validate_marshalled_s be off buf t) <= 129 * n /\ n <= len buf - off).
+Proof.
+  intros Hw Ho. unfold validate_marshalled_s.
+  exact (validate_s_bound be 66 t 0 off buf Hw Ho ltac:(lia) ltac:(cbn; lia)).
+Qed.
